@@ -42,7 +42,8 @@ RULE = {
             "process' mutation sequence is recorded fault-free and then EVERY op boundary and (thorough: every, quick: "
             "a seeded third of the) byte offsets of every write are used as crash points; after each crash three fresh "
             "processes query the directory. distinct_nontrivial counts distinct (scenario kind, op kind at the crash "
-            "point, torn-byte bucket, recovery outcome) tuples; coverage.crash_points is the number explored."),
+            "point, torn-byte bucket, recovery outcome, optimizer kind, flush policy, writer entry point, number of earlier "
+            "entries, layout, sliced or not) tuples; coverage.crash_points is the number explored."),
 }
 COMPONENTS = {
     "real": ["cotengra.reusable.ReusableOptimizer", "ReusableHyperOptimizer / HyperOptimizer (tiny seeded searches)",
@@ -920,7 +921,8 @@ def run_case_c15(case):
                     if violations:
                         break
                 bucket = "na" if okind != "write" else ("0" if b == 0 else ("full" if b == ops[k][2] else ("lt16" if b < 16 else "mid")))
-                states.add(prng.H(scen, okind, bucket, outcome, kind, case.get("flush")))
+                states.add(prng.H(scen, okind, bucket, outcome, kind, case.get("flush"), case.get("writer_via"), len(case["others"]),
+                                  str(case["cfg"]["directory_split"]), bool(case["cfg"].get("slicing_opts"))))
                 log.add("point", k, b, okind, outcome)
     finally:
         shutil.rmtree(scratch, ignore_errors=True)
